@@ -128,7 +128,27 @@ def py_spec_mo(case, st):
         out.append([c * p - v, c * p * v - v + Fr(1, 2)][ty["m"]])
     return out
 
+MO_GUARD = "no_operator_rename_chain"
+
+def mo_rename_chain(case):
+    """two node types with the same operator structure whose structurally identical operators carry names that
+    overlap at different positions: cache_func's relabelling (a->b, b->c applied repeatedly) loses an operator's values"""
+    tys = case["types"]
+    for i, a in enumerate(tys):
+        for b in tys[i + 1:]:
+            if [f for f, _ in a["s"]] == [f for f, _ in b["s"]] and a["m"] == b["m"]:
+                na, nb = [sl for _, sl in a["s"]], [sl for _, sl in b["s"]]
+                if any(x == y and p != q_ for p, x in enumerate(na) for q_, y in enumerate(nb)):
+                    return True
+    return False
+
 def gen_mo(rng):
+    while True:
+        case = _gen_mo(rng)
+        if not mo_rename_chain(case):
+            return case
+
+def _gen_mo(rng):
     ntypes = rng.randint(2, 3)
     types = []
     base_form = rng.randrange(len(S_FORMS))
@@ -198,9 +218,12 @@ def _vector_field(case, vec, tag):
         for n, op, xv in names:
             lo = c._vectorization_labels.get(f"{n}/{op}")          # operator relabelled when merged under another name
             key = f"{lo}/{xv}" if lo else f"{c._vectorization_labels.get(n, n)}/{op}/{xv}"
-            sm = state_map[key]
-            base = sm[0] if isinstance(sm, (tuple, list)) else sm
-            pos.append(int(base) + int(c._vectorization_indices[f"{n}/{op}/{xv}"][0]))
+            try:
+                sm = state_map[key]
+                base = sm[0] if isinstance(sm, (tuple, list)) else sm
+                pos.append(int(base) + int(c._vectorization_indices[f"{n}/{op}/{xv}"][0]))
+            except KeyError as e:                              # a frontend state variable the compiled template lost
+                return _raised(e, "positions")
         if sorted(pos) != list(range(len(pos))):
             return {"raised": "PositionClash", "where": "positions", "msg": str(pos)}
         outs, args = [], list(args)
@@ -571,6 +594,8 @@ def shrink(ctx, case):
     def fails(c):
         if not mo and not py_guards(c) <= allowed:          # do not drift into the class of another (known) finding
             return False
+        if mo and mo_rename_chain(c) and not mo_rename_chain(case):
+            return False
         budget[0] -= 1
         r = run_impl(ctx, "c04", "impl", [c], nworkers=1)[0]
         return "err" in r or (mo_disagrees(c, r) if mo else py_disagrees(c, r))
@@ -638,6 +663,9 @@ def check(ctx):
             badS.append(i)                          # cannot happen when the Coq comparison is right; never silently dropped
     mo_bad = [i for i in moi if mo_disagrees(cases[i], outs[i])]     # multi-operator node types: real vec vs real non-vec vs python sum
     badS += mo_bad
+    for i in mo_bad:
+        if mo_rename_chain(cases[i]):
+            guard_viol[i] = [MO_GUARD]
     for i in rawi:                                 # unmodelled family (D23): vec vs non-vec only
         if raw_differs(outs[i]):
             badS.append(i); guard_viol[i] = [RAW_GUARD]
